@@ -168,7 +168,86 @@ def shard(i: int, n: int, tier: str, seed: int) -> Result:
         res.sample({'constants': CONSTS, 'functions': UNARY_FNS + BINARY_FNS, 'operands': len(xs), 'fn_contexts_this_shard': mine[:3]})
     for w in mon.violations:
         res.violate(w)
+    stochastic_pass(res, i, n, quick)
     return res
+
+
+def stochastic_pass(res, i, n, quick):
+    """
+    Functions and constants under contexts with random bits (mechanism 4 of the property's anchors: the engine is asked for
+    pmax + num_randbits digits): with the draw scripted, every result is one of the two neighbours of the true value, and over all
+    2^k draws the number that come out as the neighbour away from zero is the offset of the true value in its gap in units of
+    2^-k, rounded as the mode says - i.e. the position of the true value rounded once to p + k digits under the context's mode.
+    All three reference values come from the enclosure oracle on deterministic descriptions (p digits toward zero, p digits away
+    from zero, p + k digits under the mode); results stay in the normal range of the formats used.
+    """
+    import fpy2 as fp
+    from fpy2 import ops
+    from fractions import Fraction
+    from ..monitors.fnmon import FnMonitor
+    from ..oracle.describe import describe, to_val
+    from ..oracle import ziv
+    from .c17 import ScriptedRandom
+    mon = FnMonitor()        # used for its oracle only; not installed
+    fns = ['exp', 'log', 'sin', 'cos', 'atan', 'tanh', 'log2', 'exp2', 'sinh', 'asinh', 'erf', 'const_pi', 'const_e', 'const_log2e', 'const_1_pi']
+    xs = [Fraction(5, 16), Fraction(11, 16), Fraction(9, 8), Fraction(15, 8), Fraction(5, 2), Fraction(27, 8)]
+    cases = []
+    for (es, nbits) in ((5, 11), (8, 16), (6, 14)):
+        for rm in (fp.RM.RNE, fp.RM.RTZ, fp.RM.RAZ, fp.RM.RTP, fp.RM.RNA):
+            for k in (1, 2, 3):
+                cases.append((es, nbits, rm, k))
+    for (es, nbits, rm, k) in cases[i::n]:
+        p = nbits - es
+        rng = ScriptedRandom()
+        try:
+            sctx = fp.IEEEContext(es, nbits, rm, fp.OV.OVERFLOW, k, rng=rng)
+        except Exception:
+            res.count('stochastic:ctor_rejected')
+            continue
+        fd_lo = describe(fp.MPFloatContext(p, fp.RM.RTZ))
+        fd_hi = describe(fp.MPFloatContext(p, fp.RM.RAZ))
+        fd_ext = describe(fp.MPFloatContext(p + k, rm))
+        for name in fns:
+            for x in (xs if not name.startswith('const_') else [None]):
+                vals = [] if x is None else [('fin', False, x)]
+                try:
+                    lo = mon.expected(name, vals, fd_lo)[0].values[0]
+                    hi = mon.expected(name, vals, fd_hi)[0].values[0]
+                    ext = mon.expected(name, vals, fd_ext)[0].values[0]
+                except ziv.Inconclusive:
+                    continue
+                except Exception:
+                    res.count('stochastic:oracle_error')
+                    continue
+                if lo == hi or lo[0] != 'fin' or hi[0] != 'fin':
+                    continue
+                gap = hi[2] - lo[2]
+                want = (ext[2] - lo[2]) * (1 << k) / gap
+                if want.denominator != 1:
+                    res.count('stochastic:oracle_error')
+                    continue
+                away, outside = 0, None
+                for r in range(1 << k):
+                    rng.value = r
+                    rng.calls.clear()
+                    try:
+                        out = getattr(ops, name)(*([fp.Float.from_rational(x)] if x is not None else []), ctx=sctx)
+                    except Exception as e:
+                        outside = f'raised {type(e).__name__}: {e}'
+                        break
+                    ov = to_val(out)
+                    if ov == hi:
+                        away += 1
+                    elif ov != lo:
+                        outside = f'draw {r}: result {out} is neither neighbour'
+                        break
+                res.evaluations += 1
+                res.nontrivial += 1
+                res.count('stochastic:distributions')
+                if outside or away != want:
+                    res.violate({'property': PROP, 'function': name, 'operand': str(x), 'context': f'IEEEContext({es}, {nbits}, {rm.name}, OVERFLOW, {k}, rng=scripted)',
+                                 'problem': outside or f'{away} of {1 << k} draws give the neighbour away from zero, the true value rounded to p + k digits asks for {want}',
+                                 'neighbours': [str(lo[2]), str(hi[2])], 'mechanism': {'part': 'stochastic', 'function': name}})
 
 
 def main(tier: str) -> int:
